@@ -393,6 +393,9 @@ func e2eMain(bin, tmpl, work string, n int) int {
 	if rc := e2eFraming(r, len(pend)+extra, &extra); rc != 0 {
 		return rc
 	}
+	if rc := e2eReserved(r, len(pend)+extra, &extra); rc != 0 {
+		return rc
+	}
 	fmt.Printf("{\"e2e_done\":%d}\n", len(pend)+extra)
 	return 0
 }
@@ -942,6 +945,85 @@ func e2eFraming(r *gen.Rand, base int, extra *int) int {
 				j.c.Oracle = append(j.c.Oracle, OracleFail{"none", fmt.Sprintf("answered %d; a row (time %d, h=%q, v=%v) is returned that no complete line of the body says", j.c.Status, ts, h, row["v"])})
 				break
 			}
+		}
+		gen.Emit(j.c)
+	}
+	return 0
+}
+
+
+// e2eReserved: the reserved key `time` (the line-protocol documentation: a point that uses it as a tag or field key is
+// discarded). A field or tag of that name cannot come back from a query, so the only answers that keep the promise are
+// a refusal that stores nothing, or - for the field - nothing else either.
+func e2eReserved(r *gen.Rand, base int, extra *int) int {
+	type job struct {
+		m    string
+		kind string
+		c    *E2ECase
+	}
+	var jobs []job
+	mk := func(kind, m, text string) {
+		st, _, err := httpPost("/write", url.Values{"db": {"c06"}}, []byte(text))
+		if err != nil {
+			st = -1
+		}
+		c := &E2ECase{E2E: base + *extra, Class: "reserved", Sub: kind, Text: text, Status: st, Oracle: []OracleFail{}}
+		*extra++
+		jobs = append(jobs, job{m, kind, c})
+	}
+	vals := []string{"5i", "2.5", "\"a\"", "true"}
+	for i := 0; i < 3; i++ {
+		m := fmt.Sprintf("rsvf%d", i)
+		v := vals[r.Intn(len(vals))]
+		ts := 1600000000000000000 + int64(r.Intn(1000000))
+		switch i {
+		case 0:
+			mk("time-field", m, fmt.Sprintf("%s time=%s,x=1i %d", m, v, ts))
+		case 1:
+			mk("time-field", m, fmt.Sprintf("%s a=2i,time=%s,x=1i %d", m, v, ts))
+		default:
+			mk("time-field", m, fmt.Sprintf("%s,k=v x=1i,time=%s %d", m, v, ts))
+		}
+	}
+	for i := 0; i < 2; i++ {
+		m := fmt.Sprintf("rsvt%d", i)
+		ts := 1600000000000000000 + int64(r.Intn(1000000))
+		if i == 0 {
+			mk("time-tag", m, fmt.Sprintf("%s,time=a x=1i %d", m, ts))
+		} else {
+			mk("time-tag", m, fmt.Sprintf("%s,host=h,time=%s x=1i %d", m, genBytes(r, 1, 4, 0), ts))
+		}
+	}
+	time.Sleep(1200 * time.Millisecond)
+	for _, j := range jobs {
+		ack := j.c.Status >= 200 && j.c.Status < 300
+		var rows []map[string]interface{}
+		var raw string
+		var err error
+		for try := 0; try < 8; try++ {
+			rows, raw, err = rowsOf(j.m)
+			if err != nil {
+				fmt.Println("ERROR e2e: query", err, raw)
+				return 2
+			}
+			if len(rows) > 0 {
+				break
+			}
+			time.Sleep(250 * time.Millisecond)
+		}
+		if len(raw) > 400 {
+			raw = raw[:400]
+		}
+		j.c.Got = raw
+		switch {
+		case j.kind == "time-field" && ack:
+			j.c.Oracle = append(j.c.Oracle, OracleFail{"C06-time-field-dropped", fmt.Sprintf("answered %d; the field named time is not stored (%d row(s) come back without it)", j.c.Status, len(rows))})
+		case j.kind == "time-tag" && len(rows) > 0:
+			j.c.Oracle = append(j.c.Oracle, OracleFail{"C06-time-tag-dropped", fmt.Sprintf("answered %d; the point is stored without its tag named time, under a series the text did not say", j.c.Status)})
+		case j.kind == "time-tag" && ack:
+			j.c.Oracle = append(j.c.Oracle, OracleFail{"none", fmt.Sprintf("answered %d but nothing comes back", j.c.Status)})
+		case !ack && len(rows) > 0:
+			j.c.Oracle = append(j.c.Oracle, OracleFail{"none", fmt.Sprintf("answered %d but %d row(s) stored", j.c.Status, len(rows))})
 		}
 		gen.Emit(j.c)
 	}
